@@ -92,7 +92,7 @@ def clause_lines(node):
     """A block node (requires/ensures/...) -> list of (clause_text, tmpl_line)."""
     out = []
     for c in node["children"]:
-        if c["text"].startswith("#"):
+        if c["text"].startswith("# ") or c["text"] == "#":
             continue
         txt = [c["text"]]
 
@@ -862,7 +862,7 @@ class Expander:
                     if not t.startswith("//@"):
                         raise ValueError("%s:%d: non-directive line inside //@extract block" % (self.tmpl_path, j + 1))
                     body = t[3:]
-                    if body.strip() and not body.strip().startswith("#"):
+                    if body.strip() and not (body.strip().startswith("# ") or body.strip() == "#"):
                         ind = len(body) - len(body.lstrip())
                         block.append((ind, body.strip(), j + 1))
                     j += 1
